@@ -59,7 +59,7 @@ def main(ctx):
                       "build failure\n", found_input=False)
         ctx.finish()
     per_shard = 24 if ctx.thorough else 3
-    max_n = 9 if ctx.thorough else 8
+    max_n = 9
     extra = "--crustabri %s --wrapper %s" % bins
     shards = run_mode(ctx, h, d, "cli", per_shard * NCPU, extra=extra, drv_modes=[("cli", "--cli-max-n %d" % max_n)],
                       timeout=1500 if ctx.thorough else 400)
@@ -197,7 +197,7 @@ def main(ctx):
                 "Well-formed stream: generated frameworks (<= %d arguments; all recipes of gen.rs) written as ICCMA'23 text (comments, CRLF, wide blanks, blank tail, missing final newline, duplicated attack lines) AND as Aspartix text (5 label styles incl. labels `YES`, `NO`, `w`; inner blanks; blank lines), each with all 21 problems in mixed-case spellings x a valid argument x reader spelling (-r/--reader/default) x --encoding (absent, aux_var, exp, hybrid) x certificate flag (-c/--with-certificate/absent) x --logging-level (off for 3 of 4; other levels: `![` log lines removed before judging), options shuffled; the ICCMA'23 wrapper on the same files. "
                 "Oracle (model independent): exit 0; stdout matches the answer grammar exactly (status line YES/NO and/or ONE witness line `w( <id>)*` / `[l1,...,lk]`, every line terminated, nothing else); status = brute-force credulous/skeptical acceptance (AF.all_exts); witness = an extension of the problem's semantics without duplicate, containing (DC) / omitting (DS) the argument, present iff the certificate was requested and the status has one; SE prints NO only when no extension exists. "
                 "Malformed stream: a FIXED enumerated family (exploration, not proof) of usage and input errors: non-zero exit (a panic status 101 is allowed) and no answer-looking line (YES, NO, w..., [...) on stdout. `problems` listing compared with the 21 names and with what was accepted. "
-                "Model.Cli predicts exit class and stdout from the argv tokens (status line compared byte for byte) where the token form is modelled | non-trivial = a well-formed invocation; distinct = distinct (tool, problem, instance, argument, options)" % (9 if ctx.thorough else 7),
+                "Model.Cli predicts exit class and stdout from the argv tokens (status line compared byte for byte) where the token form is modelled | non-trivial = a well-formed invocation; distinct = distinct (tool, problem, instance, argument, options)" % (8 if ctx.thorough else 7),
         "samples": samples + es[:6],
         "distribution": st,
         "error_classes": sorted(k for k in st["by_class"] if k.startswith("err")),
